@@ -1,5 +1,5 @@
 (* C16 — addresses are pure digests: identical data is stored once, algorithms coexist. *)
-From CC Require Import Bytes Codec Utf8 Lines Json Sri Record Fs Prog Api BytesP CodecP FsP ProgP SriP RecordP IndexP ReadP WriteP CommitP.
+From CC Require Import Bytes Codec Utf8 Lines Json Sri Record Fs Prog Api BytesP CodecP FsP ProgP SriP RecordP IndexP ReadP WriteP CommitP RemoveP Crash CrashP CrashIdxP KeepP.
 
 Section C16.
 Variable hash : algo -> bytes -> bytes.
@@ -35,6 +35,23 @@ Theorem C16_restore_idempotent f w :
     (lookup f l = None /\ lookup (snd (run (close_writer hash w) f)) l = Some Dir).
 Proof. exact (restore_idempotent hash HL f w). Qed.
 
+(* ... at EVERY instant: in every crash state of a write of the same bytes (one-shot; streamed with any chunking), and at
+   its end, the stored copy is there and byte-identical *)
+Theorem C16_rewrite_keeps_copy f fl key o data now :
+  CacheInv f -> lookup f (InCache (cpath hash (algo_of o) data)) = Some (File data) ->
+  Forall (fun g => lookup g (InCache (cpath hash (algo_of o) data)) = Some (File data)) (crash_states (oneshot hash fl key o data now) f) /\
+  lookup (snd (run (oneshot hash fl key o data now) f)) (InCache (cpath hash (algo_of o) data)) = Some (File data).
+Proof. exact (rewrite_keeps_copy hash HL f fl key o data now). Qed.
+
+(* and every other stored copy too, whatever is written (equal bytes or not, any algorithm): entries coexist without
+   affecting each other.  The side condition only excludes a digest collision between the written and the stored bytes. *)
+Theorem C16_write_keeps_other_copies f fl key o cs now a0 d :
+  CacheInv f -> lookup f (InCache (cpath hash a0 d)) = Some (File d) ->
+  (InCache (cpath hash (algo_of o) (List.concat cs)) = InCache (cpath hash a0 d) -> List.concat cs = d) ->
+  Forall (fun g => lookup g (InCache (cpath hash a0 d)) = Some (File d)) (crash_states (stream_write hash fl key o cs now) f) /\
+  lookup (snd (run (stream_write hash fl key o cs now) f)) (InCache (cpath hash a0 d)) = Some (File d).
+Proof. intros H1 H2 H3. apply (stream_write_keeps hash HL); [eexists _, _; reflexivity|exact H1|exact H2|exact H3]. Qed.
+
 (* different algorithms never share a content path *)
 Theorem C16_algos_disjoint a1 d1 a2 d2 : a1 <> a2 -> cpath hash a1 d1 <> cpath hash a2 d2.
 Proof. exact (algos_disjoint hash a1 d1 a2 d2). Qed.
@@ -49,8 +66,21 @@ Example C16_example :
   fst (run (stream_write toy_hash Async (Some (bs "k")) o [bs "a"; bs "bc"] 2%N) []).
 Proof. vm_compute. reflexivity. Qed.
 
+(* non-vacuity of the re-write theorem: after one write the copy is there, and a second write of the same bytes has
+   crash states (17 of them), all of which still hold it *)
+Example C16_example_rewrite :
+  let o := mkWopts (Some Sha1) None None None None None in
+  let f := snd (run (oneshot toy_hash Sync (Some (bs "k")) o (bs "same") 1%N) []) in
+  lookup f (InCache (cpath toy_hash Sha1 (bs "same"))) = Some (File (bs "same")) /\
+  (1 < List.length (crash_states (oneshot toy_hash Async (Some (bs "k2")) o (bs "same") 2%N) f))%nat /\
+  forallb (fun g => match lookup g (InCache (cpath toy_hash Sha1 (bs "same"))) with Some (File d) => bytes_eqb d (bs "same") | _ => false end)
+          (crash_states (oneshot toy_hash Async (Some (bs "k2")) o (bs "same") 2%N) f) = true.
+Proof. vm_compute. split; [reflexivity|]. split; [repeat constructor|reflexivity]. Qed.
+
 Print Assumptions C16_address_is_digest_keyed.
 Print Assumptions C16_address_is_digest_by_hash.
 Print Assumptions C16_stored_at_digest_path.
 Print Assumptions C16_restore_idempotent.
 Print Assumptions C16_algos_disjoint.
+Print Assumptions C16_rewrite_keeps_copy.
+Print Assumptions C16_write_keeps_other_copies.
